@@ -678,13 +678,10 @@ class ProductState:
             assert isinstance(to, jnp.ndarray)
             operation.compute_dimensions(0, to)
         elif isinstance(operation._operation_type, CompositeOperationType):
-            assert len(states) == len(
-                operation._operation_type.expected_base_state_types
-            )
+            assert len(states) == len(operation.expected_base_state_types)
             for i, s in enumerate(states):
-                op_type = operation._operation_type
                 assert isinstance(
-                    s, op_type.expected_base_state_types[i]  # type: ignore
+                    s, operation.expected_base_state_types[i]  # type: ignore
                 )
             operation.compute_dimensions(
                 [s._num_quanta if isinstance(s, Fock) else 0 for s in states],
